@@ -354,3 +354,95 @@ func buildInfix(tier string) *listStream {
 	}
 	return s
 }
+
+// ---- generated core-language programs (followed by the follow-up battery on the same interpreter) ----
+
+// statements of a function body; N is the parameter, K a per-program suffix that keeps names apart
+var progStmts = []string{
+	"(newScope (def tK N) tK)",
+	"(let [aK N] aK)",
+	"(letseq [aK N bK aK] bK)",
+	"(for [(def iK 0) (< iK 2) (set iK (+ iK 1))] (set N (+ N 0)))",
+	"(for [(def iK 0) (< iK 3) (set iK (+ iK 1))] (cond (== iK 1) (break) (continue)))",
+	"(begin (def uK N) uK)",
+	"(def pK (package innerK (def a 1)))",
+	"(def cK (fn [] N))",
+	"(defn hK [x] (+ x N))",
+	"(cond (> N 5) 1 2)",
+	"(mdef qK rK (list 1 2))",
+	"(str N)",
+	"(def sK (str (list N [N] (hash a: N))))",
+	"(assert (>= N 0))",
+	"(newScope (let [aK 1] (newScope aK)))",
+	"(let [zK 1] (def pK (package innK (def b zK))) (fn [] zK))",
+}
+
+var progTails = []string{
+	"(cond (> N 0) (fK (- N 1)) 0)",                 // self tail call
+	"(cond (> N 0) (+ 1 (fK (- N 1))) 0)",           // non-tail recursion
+	"(fn [] N)",                                     // a closure made here is the value
+	"(let [wK N] (cond (> wK 0) (fK (- wK 1)) wK))", // tail call from inside a let
+	"N",
+}
+
+var progCalls = []string{"(fK 1)", "(fK 3)"}
+
+// top-level programs (no function): packages, closures and printing in nested scopes
+var progTop = []string{
+	"(package outerK (def p (package innerK (def x 1))))",
+	"(str (package outerK (def p (package innerK (def x 1)))))",
+	"(let [z 1] (def p (package innerK (def a 1))) (fn [] 1))",
+	"(let [z 1] (def p (package innerK (def a 1))) (str p))",
+	"(newScope (def p (package innerK (def a 1))) (defn gK [] 1) (gK))",
+	"(defn mkK [] (def p (package innerK (def a 1))) (fn [] 1)) (mkK)",
+	"(defn mkK [] (def p (package innerK (def a 1))) p) (str (mkK))",
+	"(def pK (package topK (def a 1) (defn g [] a))) (str pK) (pK.g)",
+	"(package aK (package bK (package cK (def x 1))))",
+	"(for [(def i 0) (< i 2) (set i (+ i 1))] (def p (package innerK (def a i))) (fn [] p))",
+	"(def hK (hash a: (fn [] 1))) (str hK)",
+	"(defn mkK [] (let [v [1 2]] (fn [] v))) (str (mkK)) ((mkK))",
+}
+
+func buildPrograms(tier string) *listStream {
+	s := &listStream{name: "programs"}
+	k := 0
+	inst := func(t string, k int) string {
+		t = strings.ReplaceAll(t, "K", fmt.Sprintf("%d", k))
+		return strings.ReplaceAll(t, "N", "n")
+	}
+	add := func(stmts []string, tail, call, tag string) {
+		k++
+		body := strings.Join(stmts, " ")
+		s.add(inst("(defn fK [n] "+body+" "+tail+") "+call, k), "", "programs:"+tag)
+	}
+	for _, tl := range progTails {
+		for _, c := range progCalls {
+			add(nil, tl, c, "0stmt")
+			for _, a := range progStmts {
+				add([]string{a}, tl, c, "1stmt")
+			}
+		}
+	}
+	// two statements: every ordered pair with the self-tail-call and the closure tails
+	for _, a := range progStmts {
+		for _, b := range progStmts {
+			add([]string{a, b}, progTails[0], progCalls[0], "2stmt")
+			if tier == "thorough" {
+				for _, tl := range progTails[1:] {
+					add([]string{a, b}, tl, progCalls[1], "2stmt")
+				}
+			} else {
+				add([]string{a, b}, progTails[2], progCalls[0], "2stmt")
+			}
+		}
+	}
+	for _, t := range progTop {
+		k++
+		s.add(inst(t, k), "", "programs:top")
+		k++
+		s.add(inst("(defn wrapK [] "+t+") (wrapK)", k), "", "programs:top-in-fn")
+		k++
+		s.add(inst("(let [q 1] "+t+")", k), "", "programs:top-in-let")
+	}
+	return s
+}
